@@ -232,7 +232,7 @@ func (s *configurationStore) Create(ctx context.Context, configuration *configap
 		if err != nil {
 			return err
 		}
-		if err := s.store(ctx, committed, configuration.Values); err != nil {
+		if err := s.store(ctx, committed, configuration.Values, false); err != nil {
 			return err
 		}
 	}
@@ -271,7 +271,7 @@ func (s *configurationStore) Update(ctx context.Context, configuration *configap
 		if err != nil {
 			return err
 		}
-		if err := s.store(ctx, committed, configuration.Values); err != nil {
+		if err := s.store(ctx, committed, configuration.Values, true); err != nil {
 			return err
 		}
 	}
@@ -309,7 +309,7 @@ func (s *configurationStore) UpdateStatus(ctx context.Context, configuration *co
 		if err != nil {
 			return err
 		}
-		if err := s.store(ctx, applied, configuration.Status.Applied.Values); err != nil {
+		if err := s.store(ctx, applied, configuration.Status.Applied.Values, false); err != nil {
 			return err
 		}
 	}
@@ -521,7 +521,7 @@ func (s *configurationStore) getApplied(ctx context.Context, id configapi.Config
 	return s.getTarget(ctx, s.applied, id, fmt.Sprintf("configurations-%s-applied", id))
 }
 
-func (s *configurationStore) store(ctx context.Context, store _map.Map[string, *configapi.PathValue], values map[string]*configapi.PathValue) error {
+func (s *configurationStore) store(ctx context.Context, store _map.Map[string, *configapi.PathValue], values map[string]*configapi.PathValue, removeMissing bool) error {
 	prunedValues := tree.PrunePathMap(values, true)
 	transaction := store.Transaction(ctx)
 	for _, pv := range values {
@@ -538,6 +538,25 @@ func (s *configurationStore) store(ctx context.Context, store _map.Map[string, *
 			transaction.Remove(pv.Path, _map.IfVersion(entry.Version))
 		} else if pv.Index != entry.Value.Index {
 			transaction.Update(pv.Path, pv, _map.IfVersion(entry.Version))
+		}
+	}
+	if removeMissing {
+		// the values are the complete configuration: entries they no longer contain are removed
+		entries, err := store.List(ctx)
+		if err != nil {
+			return errors.FromAtomix(err)
+		}
+		for {
+			entry, err := entries.Next()
+			if err == io.EOF {
+				break
+			}
+			if err != nil {
+				return errors.FromAtomix(err)
+			}
+			if _, ok := values[entry.Key]; !ok {
+				transaction.Remove(entry.Key, _map.IfVersion(entry.Version))
+			}
 		}
 	}
 	if _, err := transaction.Commit(); err != nil {
